@@ -3,6 +3,6 @@ from ._engine import engine_check
 
 
 def run(ctx):
-    return engine_check(ctx, "PropC03", [("one_sided", 4000, 100000)],
+    return engine_check(ctx, "PropC03", [("one_sided", 4000, 100000), ("case_only_rename", 800, 20000)],
                         "one-sided run rejected by the monitor (C03: mirror / origin untouched / no echo / no conflicted artefact)",
                         stream_b="C03", entry_predicates=True, algo=True)
